@@ -40,6 +40,21 @@ def run(ctx):
             ext = runlib.default_extents(spec, rng, 1, 9)
             data, scal = runlib.gen_inputs(spec, ext, rng, density=rng.choice([1.0, 0.6, 0.3]))
             cases.append(execlib.Case(spec, text, ext, data, scal, meta={"syms": syms, "mapping": mp}, extra_ints=syms))
+    # two Einsums of one specification that partition the same rank of a shared input (same or different sizes)
+    for i in range(n // 8):
+        decl, exprs, mp, syms = specgen.gen_shape_pairs(rng)
+        try:
+            spec = runlib.Spec(specgen.yaml_of(decl, exprs, mp))
+            text = spec.compile()
+        except Exception as e:
+            k = type(e).__name__ + ": " + str(e)[:70]
+            stats["compile_errors"][k] = stats["compile_errors"].get(k, 0) + 1
+            continue
+        stats["pairs"] = stats.get("pairs", 0) + 1
+        for j in range(2):
+            ext = runlib.default_extents(spec, rng, 2, 9)
+            data, scal = runlib.gen_inputs(spec, ext, rng, density=rng.choice([1.0, 0.6]))
+            cases.append(execlib.Case(spec, text, ext, data, scal, meta={"pair": True, "syms": syms, "mapping": mp}, extra_ints=syms))
     # index-math (convolution-like) Einsums with the output rank shape-partitioned and the input rank following it
     from props import c04
     import patterns
@@ -69,7 +84,7 @@ def run(ctx):
     # T-val: the certified nest validator (C01) on the partitioned nest + the static side conditions of the partition
     # theorems (same step and level names for every tensor holding the rank, footer merges exactly the levels)
     from props import c01
-    plain_cases = [c for c in cases if not c.meta.get("affine")]
+    plain_cases = [c for c in cases if not c.meta.get("affine") and not c.meta.get("pair")]
     who = c01.certify(ctx, plain_cases, stats, allow_partition=True)
     for c in set(c for c, _, _, _ in who if not c.certified):
         same = [d for d in plain_cases if d.text == c.text]
@@ -82,6 +97,11 @@ def run(ctx):
         r = c.result
         st = c.spec.structs[0]
         if r["status"] == "RAN" and r["out"] == "OK":
+            continue
+        if c.meta.get("pair"):
+            bad += 1
+            ctx.violation({"kind": "wrong-result" if r["status"] == "RAN" else "execution-error", "pair": True},
+                          "two Einsums partitioning the same rank of a shared input: %s" % str(r)[:300], c.replay())
             continue
         bad += 1
         if c.meta.get("affine"):
